@@ -991,3 +991,50 @@ Theorem change_ext_api_single i H V : valid i -> 0 <= H <= 35 -> 0 <= V <= 35 ->
 Proof.
   intros Hv HH HV. rewrite <- change_single. apply (change_ext_api_spec [i] H V); auto. intros j [<-|[]]. exact Hv.
 Qed.
+
+(* ================================================================================================================== *)
+(* 12. Histories: the model has no state — every answer is a function of the call's own arguments                      *)
+(* ================================================================================================================== *)
+(* one call of an exported function, and what the model answers *)
+Inductive call :=
+| CallExt (ids : list string) (H V : Z)
+| CallSid (ids : list string) (z : Z)
+| CallHorizontal (zin x y zout : Z)
+| CallVertical (zin f zout : Z)
+| CallMinMax (zin x y zout : Z).
+Inductive answer := AnsIds (r : result (list string)) | AnsBox (l : list Z).
+Definition answer_of (c : call) : answer :=
+  match c with
+  | CallExt ids H V => AnsIds (change_ext_api ids H V)
+  | CallSid ids z => AnsIds (change_sid_api ids z)
+  | CallHorizontal zin x y zout => AnsIds (Ok (hzoom_strs zin x y zout))
+  | CallVertical zin f zout => AnsIds (Ok (vzoom_strs zin f zout))
+  | CallMinMax zin x y zout => AnsBox (hzoom_minmax_l zin x y zout)
+  end.
+(* running a sequence of calls after an arbitrary past: the only thing a step could consult is the log of earlier calls, and it does not *)
+Definition model_step (log : list call) (c : call) : list call * answer := (c :: log, answer_of c).
+Fixpoint run_from (log : list call) (h : list call) : list answer :=
+  match h with
+  | [] => []
+  | c :: r => snd (model_step log c) :: run_from (fst (model_step log c)) r
+  end.
+Theorem history_irrelevant log h : run_from log h = map answer_of h.
+Proof. revert log. induction h as [|c r IH]; intros log; cbn [run_from map]; [reflexivity|]. now rewrite IH. Qed.
+(* the answer to a call is the same after any two pasts and whatever follows *)
+Theorem answer_after_any_history log log' before before' after after' c :
+  nth_error (run_from log (before ++ c :: after)) (length before) = Some (answer_of c) /\
+  nth_error (run_from log (before ++ c :: after)) (length before) =
+  nth_error (run_from log' (before' ++ c :: after')) (length before').
+Proof.
+  assert (E : forall lg b a, nth_error (run_from lg (b ++ c :: a)) (length b) = Some (answer_of c)).
+  { intros lg b a. rewrite history_irrelevant, map_app, nth_error_app2 by (rewrite map_length; lia).
+    rewrite map_length, Nat.sub_diag. reflexivity. }
+  split; [apply E|]. now rewrite !E.
+Qed.
+(* repeating a call, in particular, repeats the answer *)
+Corollary repeated_call_same_answer log c between :
+  nth_error (run_from log (c :: between ++ [c])) 0 = nth_error (run_from log (c :: between ++ [c])) (S (length between)).
+Proof.
+  rewrite history_irrelevant. cbn [map nth_error]. rewrite map_app, nth_error_app2 by (rewrite map_length; lia).
+  rewrite map_length, Nat.sub_diag. reflexivity.
+Qed.
